@@ -454,11 +454,9 @@ class DriverLubaRs232(DriverSerialBase):
                 _LOG.critical(
                     f"LUBA RX DALI queue not empty! {qlen} items in queue!"
                 )
-                try:
+                while not self._queue_rx_raw_dali.empty():
                     item = self._queue_rx_raw_dali.get_nowait()
                     _LOG.critical(f"LUBA RX DALI queue discarding: {item}")
-                except asyncio.QueueEmpty:
-                    pass
 
         @staticmethod
         def _insert_checksum(in_ints: list[int]) -> None:
@@ -1294,11 +1292,9 @@ class DriverSCIRS232(DriverSerialBase):
                 _LOG.critical(
                     f"SCI RS232 RX DALI queue not empty! {qlen} items in queue!"
                 )
-                try:
+                while not self._queue_rx_raw_dali.empty():
                     item = self._queue_rx_raw_dali.get_nowait()
                     _LOG.critical(f"SCI RS232 RX DALI queue discarding: {item}")
-                except asyncio.QueueEmpty:
-                    pass
 
             # remove information frames (includes errors and sent confirmations)
             qlen = self._queue_rx_info.qsize()
@@ -1306,11 +1302,9 @@ class DriverSCIRS232(DriverSerialBase):
                 _LOG.critical(
                     f"SCI RS232 RX info DALI queue not empty! {qlen} items in queue!"
                 )
-                try:
+                while not self._queue_rx_info.empty():
                     item = self._queue_rx_info.get_nowait()
                     _LOG.critical(f"SCI RS232 RX info DALI queue discarding: {item}")
-                except asyncio.QueueEmpty:
-                    pass
 
         @staticmethod
         def _insert_checksum(in_ints: list[int]) -> None:
